@@ -832,6 +832,15 @@ func (e *Env) callExpr(n *ECall) Val {
 			return boolVal("(= " + v.T + " 0)")
 		case "uint64", "int64", "int", "uint32", "int32", "uint8", "byte", "uint":
 			return intVal(argv(0).T)
+		case "effAuthority":
+			fc.B.DeclFun("env_auth", []string{"Int"}, "String")
+			return strVal(effAuth(argv(0).T, str(1)))
+		case "bech32dec":
+			fc.B.DeclFun("bech32_dec", []string{"String"}, "String")
+			return strVal("(bech32_dec " + str(0) + ")")
+		case "bech32ok":
+			fc.B.DeclFun("bech32_ok", []string{"String"}, "Bool")
+			return boolVal("(bech32_ok " + str(0) + ")")
 		case "height":
 			return intVal("(env_height (c_env " + argv(0).T + "))")
 		case "blocktime":
